@@ -209,7 +209,7 @@ pub fn c16(ctx: &mut Ctx, layer: &str) {
             if ctx.thorough {
                 8
             } else {
-                6
+                7
             }
         }
     };
@@ -398,7 +398,7 @@ pub fn c17(ctx: &mut Ctx, layer: &str) {
             if ctx.thorough {
                 8
             } else {
-                6
+                7
             }
         }
     };
@@ -605,7 +605,7 @@ pub fn c18(ctx: &mut Ctx, layer: &str) {
             if ctx.thorough {
                 8
             } else {
-                6
+                7
             }
         }
     };
